@@ -1,4 +1,5 @@
 import PlzVerif.Model.Build
+import PlzVerif.Model.BuildCache
 /-
 Model of the test step (src/test/test_step.go `test`: `needToRun`, `cachedTestResults`, `cacheOutputFiles`,
 `RemoveTestOutputs`; src/build/incrementality.go `RuntimeHash`; src/core/utils.go `IterRuntimeFiles`) on top of
@@ -10,6 +11,9 @@ the build model.  Core Lean only.
   runtime PRE-IMAGE `RStamp`, whose shape is dictated by the regenerated facts: rule pre-image (runtime = true),
   config, and per `IterRuntimeFiles` entry the path pre-image — and the entry's NAME only if the code writes it
   (today it does not).  The path digests have a fixed width, so their unframed concatenation is a list.
+* With `[cache] dir` configured (`TRepo.cacheOn`) the build phase is `buildC` and the results file is also stored
+  into / retrieved from the artifact cache under (label, runtime hash) — `cacheOutputFiles` → `state.Cache.Store`,
+  `needToRun` → `retrieveFromCache`.
 * `outcome` is an arbitrary deterministic function of what the test can observe: its runtime attributes and the
   (name, tree) list that `PrepareRuntimeDir` materialises from `IterRuntimeFiles`.
 -/
@@ -73,6 +77,7 @@ structure TRepo (K A F N C A' G : Type) where
   ownName : K → N          -- destination of a test's OWN output in its runtime directory (the bare output name,
                            -- whereas the same file seen as somebody's data is `repo.outName`: package/output)
   cfg     : G
+  cacheOn : Bool           -- `[cache] dir` is configured: build outputs and results files go through the artifact cache
 
 /-- Flags of one `plz test` invocation. -/
 structure Flags where
@@ -95,9 +100,14 @@ deriving DecidableEq, Repr
 
 abbrev Results (K R : Type) := K → Option (Stored R)
 
+/-- Results files in the artifact cache, keyed by (label, runtime hash). -/
+abbrev RCache (K R : Type) := K × R → Option (Stored R)
+
 structure TState (K C S N H R : Type) where
-  out : Out K C S N H
-  res : Results K R
+  out    : Out K C S N H
+  res    : Results K R
+  bcache : Build.Cache K C S N H
+  rcache : RCache K R
 
 section
 variable {K A F N C S H A' S' G : Type}
@@ -138,95 +148,132 @@ def runtimeSer (cfg : G) (a : A') (files : List (N × C)) : RStamp S' G N H :=
 
 variable {R : Type} [DecidableEq R]
 
-/-- `needToRun` with no artifact cache configured (the retrieve branch is a miss). -/
-def needToRun (fl : Flags) (bs : BState) (stored : Option (Stored R)) (h : R) : Bool :=
-  if fx.rerunForces && fl.rerun then true
-  else match stored with
-    | some s => if fx.reuseStates.contains bs then (fx.verifiesHash && s.stamp != h) else true
-    | none => true
+/-- `needToRun`: whether the command must run, and the results file afterwards (`retrieveFromCache` restores it
+    on a hit).  `hit` is what the artifact cache holds under (label, current runtime hash); `none` when no cache. -/
+def needToRun (fl : Flags) (bs : BState) (stored : Option (Stored R)) (h : R) (hit : Option (Stored R)) :
+    Bool × Option (Stored R) :=
+  if fx.rerunForces && fl.rerun then (true, stored)
+  else match stored, fx.reuseStates.contains bs with
+    | some s, true => (fx.verifiesHash && s.stamp != h, stored)    -- state Unchanged / Reused and the file exists
+    | _, _ => match hit with                                       -- retrieveFromCache
+      | some c => (false, some c)
+      | none => (true, stored)
 
 variable (outcome : A' → List (N × C) → Outcome)
 
-/-- `test()` for one target: reuse the stored result or run the command; returns the new results file. -/
-def testOne (fl : Flags) (bs : BState) (dummy : Bool) (a : A') (files : List (N × C)) (h : R)
-    (stored : Option (Stored R)) : Option (Stored R) × Report :=
-  let reuse := (!fx.singleRunOnly || fl.numRuns == 1) && !needToRun fx fl bs stored h
-  let fromCache : Option Outcome :=
-    if reuse then
-      match stored with
-      | some s => if fx.cachedRejectsFailed && s.res != .pass then none else some s.res    -- cachedTestResults
-      | none => none
-    else none
-  match fromCache with
-  | some o => (stored, ⟨o, true, 0⟩)
-  | none =>
-    let o := outcome a files
-    let cleared := if fx.removesBefore then none else stored                               -- RemoveTestOutputs
-    if fl.numRuns == 1 then
-      let store := (!fx.storeIfAllSucceeded || o == .pass) && (!fx.storeIfNoFailures || o != .fail) &&
-                   (!fx.storeIfNoArgs || !fl.hasArgs)                                      -- cacheOutputFiles
-      (if store then some ⟨if dummy then .pass else o, h⟩ else cleared, ⟨o, false, 1⟩)
-    else (cleared, ⟨o, false, fl.numRuns⟩)
+/-- The gate `state.NumTestRuns == 1 && !runRemotely && !needToRun()`: `&&` short-circuits, so `needToRun` (and its
+    cache retrieval) only happens for single runs.  Returns (must run, results file afterwards). -/
+def afterNeedToRun (fl : Flags) (bs : BState) (stored : Option (Stored R)) (h : R) (hit : Option (Stored R)) :
+    Bool × Option (Stored R) :=
+  if !fx.singleRunOnly || fl.numRuns == 1 then needToRun fx fl bs stored h hit else (true, stored)
 
-/-- Target state after the build phase: not executed ⇒ Reused; executed and the output's hash is what it was ⇒
-    Unchanged; otherwise Built. -/
+/-- `cachedTestResults`: the stored / retrieved result that is reported instead of running, if any. -/
+def reused (fl : Flags) (bs : BState) (stored : Option (Stored R)) (h : R) (hit : Option (Stored R)) : Option (Stored R) :=
+  match afterNeedToRun fx fl bs stored h hit with
+  | (false, some s) => if fx.cachedRejectsFailed && s.res != .pass then none else some s
+  | _ => none
+
+/-- Run the command: RemoveTestOutputs, execute, and (`cacheOutputFiles`) keep the results file stamped with the
+    current hash — in plz-out and in the artifact cache — only if the guards allow it.
+    Returns (results file, what goes into the cache under the current hash, report). -/
+def runTest (fl : Flags) (dummy : Bool) (a : A') (files : List (N × C)) (h : R) (file1 : Option (Stored R)) :
+    Option (Stored R) × Option (Stored R) × Report :=
+  let o := outcome a files
+  let cleared := if fx.removesBefore then none else file1                                  -- RemoveTestOutputs
+  if fl.numRuns == 1 then
+    let store := (!fx.storeIfAllSucceeded || o == .pass) && (!fx.storeIfNoFailures || o != .fail) &&
+                 (!fx.storeIfNoArgs || !fl.hasArgs)                                        -- cacheOutputFiles
+    if store then (some ⟨if dummy then .pass else o, h⟩, some ⟨if dummy then .pass else o, h⟩, ⟨o, false, 1⟩)
+    else (cleared, none, ⟨o, false, 1⟩)
+  else (cleared, none, ⟨o, false, fl.numRuns⟩)
+
+/-- `test()` for one target: report the stored / retrieved result or run the command. -/
+def testOne (fl : Flags) (bs : BState) (dummy : Bool) (a : A') (files : List (N × C)) (h : R)
+    (stored hit : Option (Stored R)) : Option (Stored R) × Option (Stored R) × Report :=
+  match reused fx fl bs stored h hit with
+  | some s => (some s, none, ⟨s.res, true, 0⟩)
+  | none => runTest fx outcome fl dummy a files h (afterNeedToRun fx fl bs stored h hit).2
+
+/-- Target state after the build phase. Executed: Unchanged when the output's hash is what it was, else Built.
+    Not executed: Reused when the stamp is unchanged (needsBuilding = false); otherwise the outputs were restored
+    from the cache: Unchanged when their hash is what it was, else Cached. -/
 def bstateOf (out out' : Out K C S N H) (ran : List K) (k : K) : BState :=
-  if ran.contains k then
-    match out k, out' k with
-    | some p, some p' => if pathSer p.1 = pathSer p'.1 then .unchanged else .built
-    | _, _ => .built
-  else .reused
+  match out k, out' k with
+  | some p, some p' =>
+    if ran.contains k then (if pathSer p.1 = pathSer p'.1 then .unchanged else .built)
+    else if p.2 = p'.2 then .reused
+    else (if pathSer p.1 = pathSer p'.1 then .unchanged else .cached)
+  | _, _ => if ran.contains k then .built else .cached
 
 /-- The test phase over the target list (order of the list; reports are keyed). `none` report: the runtime
     files could not be collected (something is not built) and nothing is run. -/
 def testList (r : TRepo K A F N C A' G) (tsel : K → Bool) (fl : Flags) (out0 out' : Out K C S N H) (ran : List K) :
-    List (Target K A F) → Results K (RStamp S' G N H) → Results K (RStamp S' G N H) × List (K × Option Report)
-  | [], res => (res, [])
-  | t :: ts, res =>
+    List (Target K A F) → Results K (RStamp S' G N H) → RCache K (RStamp S' G N H) →
+    Results K (RStamp S' G N H) × RCache K (RStamp S' G N H) × List (K × Option Report)
+  | [], res, rc => (res, rc, [])
+  | t :: ts, res, rc =>
     if tsel t.key then
       match r.tests t.key with
-      | none => testList r tsel fl out0 out' ran ts res
+      | none => testList r tsel fl out0 out' ran ts res rc
       | some td =>
         match runtimeFiles r.repo r.ownName out' t.key td with
         | none =>
-          let (res', reps) := testList r tsel fl out0 out' ran ts res
-          (res', (t.key, none) :: reps)
+          let x := testList r tsel fl out0 out' ran ts res rc
+          (x.1, x.2.1, (t.key, none) :: x.2.2)
         | some files =>
           let h := runtimeSer fx ruleSerRT pathSer r.cfg td.rattrs files
-          let (s', rep) := testOne fx outcome fl (bstateOf pathSer out0 out' ran t.key) td.dummy td.rattrs files h (res t.key)
-          let (res', reps) := testList r tsel fl out0 out' ran ts (fun j => if j = t.key then s' else res j)
-          (res', (t.key, some rep) :: reps)
-    else testList r tsel fl out0 out' ran ts res
+          let hit := if r.cacheOn then rc (t.key, h) else none
+          let y := testOne fx outcome fl (bstateOf pathSer out0 out' ran t.key) td.dummy td.rattrs files h (res t.key) hit
+          let rc' : RCache K (RStamp S' G N H) := match y.2.1 with
+            | some s => if r.cacheOn then (fun q => if q = (t.key, h) then some s else rc q) else rc
+            | none => rc
+          let x := testList r tsel fl out0 out' ran ts (fun j => if j = t.key then y.1 else res j) rc'
+          (x.1, x.2.1, (t.key, some y.2.2) :: x.2.2)
+    else testList r tsel fl out0 out' ran ts res rc
 
 variable (bfx : Build.Facts) (mv : C → C → C) (exec : A → List (N × C) → C) (ruleSer : A → S)
+
+/-- The build phase of an invocation: with the cache configured `buildC`, else `build`. -/
+def buildPhase (r : TRepo K A F N C A' G) (sel : K → Bool) (out : Out K C S N H) (bc : Build.Cache K C S N H) :
+    Out K C S N H × Build.Cache K C S N H × List K :=
+  if r.cacheOn then buildC bfx mv exec ruleSer pathSer r.repo sel out bc
+  else ((build bfx mv exec ruleSer pathSer r.repo sel out).1, bc, (build bfx mv exec ruleSer pathSer r.repo sel out).2)
 
 /-- One `plz test`: build `sel` (the closure of the requested tests), then test the requested ones.
     Returns the new state, the build actions executed and the per-test reports. -/
 def testAll (r : TRepo K A F N C A' G) (sel tsel : K → Bool) (fl : Flags) (st : TState K C S N H (RStamp S' G N H)) :
     TState K C S N H (RStamp S' G N H) × List K × List (K × Option Report) :=
-  let b := build bfx mv exec ruleSer pathSer r.repo sel st.out
-  let t := testList fx ruleSerRT pathSer outcome r tsel fl st.out b.1 b.2 r.repo.targets st.res
-  (⟨b.1, t.1⟩, b.2, t.2)
+  let b := buildPhase pathSer bfx mv exec ruleSer r sel st.out st.bcache
+  let t := testList fx ruleSerRT pathSer outcome r tsel fl st.out b.1 b.2.2 r.repo.targets st.res st.rcache
+  (⟨b.1, t.1, b.2.1, t.2.1⟩, b.2.2, t.2.2)
 
-def TState.empty : TState K C S N H R := ⟨fun _ => none, fun _ => none⟩
+def TState.empty : TState K C S N H R := ⟨fun _ => none, fun _ => none, fun _ => none, fun _ => none⟩
 
-/-- A fresh run: the same tree in a fresh directory (empty plz-out, no stored results), default flags. -/
+/-- A fresh run: the same tree in a fresh directory (empty plz-out, no stored results, empty cache), default flags. -/
 def freshRun (r : TRepo K A F N C A' G) (sel tsel : K → Bool) : List (K × Option Report) :=
   (testAll fx ruleSerRT pathSer outcome bfx mv exec ruleSer r sel tsel {} TState.empty).2.2
 
-/-- One step of a user history. Edits to the tree show up in the `TRepo` of the next invocation. -/
-inductive TOp (K A F N C A' G : Type) where
+/-- One step of a user history. Edits to the tree (including switching the cache on or off in .plzconfig) show up in
+    the `TRepo` of the next invocation. -/
+inductive TOp (K A F N C S H A' G R : Type) where
   | test (r : TRepo K A F N C A' G) (sel tsel : K → Bool) (fl : Flags)      -- plz test
-  | build (r : Repo K A F N C) (sel : K → Bool)                              -- plz build
+  | build (r : TRepo K A F N C A' G) (sel : K → Bool)                        -- plz build
   | rmOut (keep : K → Bool)                                                  -- remove outputs from plz-out
   | rmRes (keep : K → Bool)                                                  -- remove results files
+  | evictB (keep : K × Stamp S N H → Bool)                                   -- evict build artifacts from the cache
+  | evictR (keep : K × R → Bool)                                             -- evict results files from the cache
 
-def runHistT : List (TOp K A F N C A' G) → TState K C S N H (RStamp S' G N H) → TState K C S N H (RStamp S' G N H)
+def runHistT : List (TOp K A F N C S H A' G (RStamp S' G N H)) → TState K C S N H (RStamp S' G N H) →
+    TState K C S N H (RStamp S' G N H)
   | [], st => st
   | .test r sel tsel fl :: ops, st => runHistT ops (testAll fx ruleSerRT pathSer outcome bfx mv exec ruleSer r sel tsel fl st).1
-  | .build r sel :: ops, st => runHistT ops ⟨(build bfx mv exec ruleSer pathSer r sel st.out).1, st.res⟩
-  | .rmOut keep :: ops, st => runHistT ops ⟨fun k => if keep k then st.out k else none, st.res⟩
-  | .rmRes keep :: ops, st => runHistT ops ⟨st.out, fun k => if keep k then st.res k else none⟩
+  | .build r sel :: ops, st =>
+    runHistT ops ⟨(buildPhase pathSer bfx mv exec ruleSer r sel st.out st.bcache).1, st.res,
+                  (buildPhase pathSer bfx mv exec ruleSer r sel st.out st.bcache).2.1, st.rcache⟩
+  | .rmOut keep :: ops, st => runHistT ops ⟨fun k => if keep k then st.out k else none, st.res, st.bcache, st.rcache⟩
+  | .rmRes keep :: ops, st => runHistT ops ⟨st.out, fun k => if keep k then st.res k else none, st.bcache, st.rcache⟩
+  | .evictB keep :: ops, st => runHistT ops ⟨st.out, st.res, fun q => if keep q then st.bcache q else none, st.rcache⟩
+  | .evictR keep :: ops, st => runHistT ops ⟨st.out, st.res, st.bcache, fun q => if keep q then st.rcache q else none⟩
 
 end
 end PlzVerif.TestCache
